@@ -754,6 +754,52 @@ func c12InvalidRequests() []map[string]interface{} {
 			}
 		})
 	}
+	// Copy / DeepCopy yield independent snapshots: also for bindings that are addressable cells (Define(name, nil) makes one),
+	// where "a later change" can be a store through the pointer Addr hands out
+	for _, deep := range []bool{false, true} {
+		deep := deep
+		guard(fmt.Sprintf("a store through Addr after a copy (deep=%v)", deep), func() {
+			root := env.NewEnv()
+			root.Define("up", nil)
+			e := root.NewEnv()
+			e.Define("x", nil)
+			cell := reflect.New(tokType).Elem()
+			cell.Set(reflect.ValueOf(tokVal{1}))
+			e.DefineValue("y", cell)
+			var c *env.Env
+			if deep {
+				c = e.DeepCopy()
+			} else {
+				c = e.Copy()
+			}
+			names := []string{"x", "y"}
+			if deep {
+				names = append(names, "up")
+			}
+			for _, side := range []string{"copy", "original"} {
+				from, to := c, e
+				if side == "original" {
+					from, to = e, c
+				}
+				for _, name := range names {
+					before, _ := to.Get(name)
+					p, err := from.Addr(name)
+					if err != nil {
+						bad("Addr of an addressable binding fails after a copy: " + err.Error())
+						continue
+					}
+					if name == "y" {
+						p.Elem().Set(reflect.ValueOf(tokVal{2}))
+					} else {
+						p.Elem().Set(reflect.ValueOf(int64(5)))
+					}
+					if after, _ := to.Get(name); fmt.Sprint(after) != fmt.Sprint(before) {
+						bad(fmt.Sprintf("a store through Addr(%q) on the %s shows on the other side of a copy (deep=%v): %v, before %v", name, side, deep, after, before))
+					}
+				}
+			}
+		})
+	}
 	return out
 }
 
